@@ -297,6 +297,9 @@ class Ctx:
         self.counters: dict[str, int] = {}
         self.aborted: str | None = None
         self.pairs: set[tuple[str, str]] = set()
+        #: IDLE followed by a one-line command: DONE and that command are
+        #: sent in one segment (a client need not wait for IDLE's tagged OK)
+        self.pipe_idle = False
 
     def count(self, k: str, n: int = 1) -> None:
         self.counters[k] = self.counters.get(k, 0) + n
@@ -656,12 +659,47 @@ async def observe(cfg: str, syms: list[str], ctx: Ctx) -> Obs:
         conns.append(conn)
         conn.start(env.imap)
         await conn.greeting()
-        for name in syms:
+        skip = False
+        for i, name in enumerate(syms):
+            if skip:
+                skip = False
+                continue
             if conn.dead or obs.stuck:
                 obs.unsent += 1
                 obs.results.append((None, None))
                 continue
             sym = SYMS[name]
+            nxt = SYMS[syms[i + 1]] if i + 1 < len(syms) else None
+            if ctx.pipe_idle and name == 'IDLE' and nxt is not None \
+                    and not nxt.follow and b'{' not in nxt.first:
+                tag2 = conn.next_tag()
+                r = await send(conn, sym.first,
+                               (b'DONE\r\n' + tag2 + b' ' + nxt.first,))
+                c = _cond(r)
+                obs.results.append((c, r.tagged.code if r is not None
+                                    and r.tagged is not None else None))
+                ctx.count('pipelined_after_idle')
+                r2 = None
+                if r is not None:
+                    task = conn.loop.create_task(
+                        conn.command(tag2, [b''], delay=False))
+                    for _ in range(4):
+                        await _settle(conn)
+                        if task.done():
+                            break
+                        await conn.loop.advance(1.0)    # type: ignore
+                    if task.done():
+                        r2 = task.result()
+                    else:
+                        task.cancel()
+                obs.results.append((_cond(r2), r2.tagged.code
+                                    if r2 is not None and r2.tagged is not None
+                                    else None))
+                obs.last = r2
+                if r is None or r2 is None:
+                    obs.stuck = True
+                skip = True
+                continue
             r = await send(conn, sym.first, sym.follow)
             c = _cond(r)
             obs.results.append((c, r.tagged.code if r is not None
@@ -1239,6 +1277,20 @@ class C05(Check):
                 continue
             seen.add(key)
             rnd.append({'kind': 'random', 'config': cfg, 'symbols': seq})
+        # DONE and the next command in one segment, after every way of
+        # having a mailbox selected
+        pipe: list[dict[str, Any]] = []
+        for cfg in (['dict'] if quick else ['dict', 'maildir']):
+            for sel in ('SELECT_A', 'EXAMINE_A', 'SELECT_B'):
+                for x in ALPHABET:
+                    if SYMS[x].follow or b'{' in SYMS[x].first:
+                        continue
+                    if quick and x not in CORE:
+                        continue
+                    pipe.append({'kind': 'random', 'config': cfg,
+                                 'symbols': ['LOGIN_OK', sel, 'IDLE', x],
+                                 'pipe_idle': True})
+        out += pipe
         # short sequences first (a mechanism's first witness is then likely
         # a short one); shards are strided, so every worker gets the same mix
         rng.shuffle(out)
@@ -1271,6 +1323,7 @@ class C05(Check):
         kind = spec.get('kind') or 'script-' + spec['script']
         cfg = spec.get('config', 'dict')
         ctx = Ctx(cfg)
+        ctx.pipe_idle = bool(spec.get('pipe_idle'))
 
         async def main(loop: L.CtlLoop) -> None:
             if kind in ('exh', 'matrix'):
